@@ -436,4 +436,39 @@ example : JobsOk exCfg4 := by
   by_cases hc : code = 1 <;> simp [exCfg4, hc] at h
   · rcases h with rfl | rfl | rfl <;> simp
 
+/-! ### termination does not wait for, or start, queued jobs (the two halves of the argument) -/
+
+/-- **`terminate_` is written only under the pool mutex**: a transition that changes the flag is taken by a thread
+    that owns the mutex. -/
+theorem pool_terminate_under_mutex {cfg : Cfg} {s : State} (hr : Reachable cfg s) {t c : Nat} {o}
+    (h : step cfg s t c = some o) (hne : o.st.term ≠ s.term) : s.owner = some t := by
+  have hm := (reachable_invB hr).mutex t
+  have hf : o.st.term = s.term ∨ holds (getT s.thr t).pc = true := by
+    pool_step_cases h
+    all_goals (first
+      | (left; simp; done)
+      | (left; simp [beginScript, afterCall, endOfScriptDes]; done)
+      | (right
+         have hth := getT_of_getElem? ‹s.thr[t]? = some _›
+         rw [hth]; simp [holds, holdsC, *]; done))
+  rcases hf with hf | hf
+  · exact absurd hf hne
+  · exact hm.mp hf
+
+/-- **A job is picked only under the pool mutex, at the `++busy_` point**: a transition that starts a job
+    (`started` grows) is taken by a worker at `wBusyInc` that owns the mutex — the program point reached only from
+    the check `if (terminate_) break;` (`wLoadTerm3`) read as `false` in the same critical section. -/
+theorem pool_pick_under_mutex {cfg : Cfg} {s : State} (hr : Reachable cfg s) {t c : Nat} {o}
+    (h : step cfg s t c = some o) (hne : o.st.started ≠ s.started) :
+    s.owner = some t ∧ (getT s.thr t).pc = .wBusyInc := by
+  have hm := (reachable_invB hr).mutex t
+  pool_step_cases h
+  all_goals (first
+    | (exfalso; apply hne; simp; done)
+    | (exfalso; apply hne; simp [beginScript, afterCall, endOfScriptDes]; done)
+    | skip)
+  all_goals (
+    have hth := getT_of_getElem? ‹s.thr[t]? = some _›
+    rw [hth] at hm ⊢
+    refine ⟨hm.mp (by simp [holds, *]), by assumption⟩)
 end TlxVerif.C10
